@@ -32,6 +32,8 @@ func main() {
 		famC12(g, o, *n, *thorough)
 	case "c06":
 		famC06(g, o, *n, *thorough)
+	case "c20":
+		famC20(g, o, *n, *thorough)
 	case "c04":
 		famC04(g, o, *n, *thorough)
 	case "c03":
